@@ -149,13 +149,20 @@ def rule_blank_lines_skip(ctx):
     db = ctx.db
     r = ctx.rule("region-boundaries", "do_blank_lines leaves the newline after a CT_IGNORED chunk alone; cpd.unc_off is cleared by uncrustify_end on every path")
     f = db.fn("do_blank_lines", file="src/newlines/blank_line.cpp")
-    conts = [b for b, blk in f.blocks.items() if blk.get("term") and expr_str(f, blk["term"].get("lc", blk["term"].get("c"))) == "prev->Is(CT_IGNORED)"]
-    r.check(len(conts) == 1, "do_blank_lines/skips-after-ignored", db.loc(f, f.l0), "the CT_IGNORED skip vanished from do_blank_lines")
-    for b in conts:
+    # a line break with a line of a disabled region on either side belongs to the region: both neighbours are tested, on the
+    # chunks that touch the line break (a test past a comment takes the line break behind an indented enable marker for one of
+    # the region and lets nl_max cut the blank lines behind the disable marker)
+    want = {"pc->GetPrev(ALL)->Is(CT_IGNORED)": "prev", "pc->GetNext(ALL)->Is(CT_IGNORED)": "next"}
+    conts = [(b, want[expr_str(f, blk["term"].get("lc", blk["term"].get("c")))]) for b, blk in f.blocks.items()
+             if blk.get("term") and expr_str(f, blk["term"].get("lc", blk["term"].get("c"))) in want]
+    r.check(set(w for b, w in conts) == {"prev", "next"}, "do_blank_lines/skips-after-ignored", db.loc(f, f.l0),
+            "do_blank_lines() does not skip a line break for each of `pc->GetPrev()->Is(CT_IGNORED)` and `pc->GetNext()->Is(CT_IGNORED)` (found: %s)"
+            % sorted(w for b, w in conts))
+    for b, which in conts:
         # the true edge goes straight to the loop increment: no SetNlCount / blank_line_* reachable before the back edge
         w = f.paths_avoiding(f.succ[b][0], lambda n: n["k"] == "call" and ((n.get("c") or "").endswith("SetNlCount") or (n.get("c") or "").startswith("blank_line_")),
                              lambda n: n["k"] == "call" and n.get("c") == "Chunk::GetNext" and expr_str(f, n.get("o")) == "pc", start_is_node=False)
-        r.check(w is None, "do_blank_lines/skip-changes-nothing", db.loc(f, f.blocks[b]["term"]["l"]), "the skip path still changes a newline count")
+        r.check(w is None, "do_blank_lines/skip-changes-nothing/%s" % which, db.loc(f, f.blocks[b]["term"]["l"]), "the skip path still changes a newline count")
     e = db.fn("uncrustify_end", file="src/uncrustify.cpp")
     st = [n for n in e.all_nodes() if n["k"] == "asg" and global_path(e, n["a"][0]) == "cpd.unc_off" and expr_str(e, n["a"][1]) == "false"]
     r.check(len(st) == 1 and e.exit_reachable_avoiding(e.entry, lambda n: n["i"] == st[0]["i"], start_is_node=False) is None, "uncrustify_end/clears-unc_off", db.loc(e, e.l0),
